@@ -49,7 +49,7 @@ VARIABLES
   \* the stream d
   loc,      \* where the server end is: none, wire, run, slot, acc, closed
   idw,      \* id written by the dialer
-  ackv,     \* id written back by the acceptor (0 = none yet)
+  ackv,     \* id written back by the acceptor (-1 = none yet; 0 is an id like any other)
   \* Run loop per side
   rpc, rcur, rslot,
   \* broker state per side
@@ -73,7 +73,7 @@ vars  == <<now, dialv, strv, runv, brkv, twv, accv, panicked, nid, down>>
 Init ==
   /\ now = 0
   /\ dpc = [d \in Dials |-> "new"] /\ dres = [d \in Dials |-> None] /\ dt = [d \in Dials |-> -1]
-  /\ loc = [d \in Dials |-> "none"] /\ idw = [d \in Dials |-> FALSE] /\ ackv = [d \in Dials |-> 0]
+  /\ loc = [d \in Dials |-> "none"] /\ idw = [d \in Dials |-> FALSE] /\ ackv = [d \in Dials |-> -1]
   /\ rpc = [s \in Sides |-> "accept"] /\ rcur = [s \in Sides |-> None] /\ rslot = [s \in Sides |-> 0]
   /\ slotOf = [s \in Sides |-> [i \in Ids |-> 0]]
   /\ sch = [s \in Sides |-> [k \in Slots |-> None]]
@@ -133,9 +133,9 @@ DialAbort_(d) ==          \* the peer closes the stream it opened without writin
 
 DialAck_(d) ==            \* mux.dial.ack, ret.dial
   /\ dpc[d] = "wrote"
-  /\ \/ /\ ackv[d] # 0
+  /\ \/ /\ ackv[d] # -1
         /\ dres' = [dres EXCEPT ![d] = IF ackv[d] = DId(d) THEN "ok" ELSE "badack"]
-     \/ /\ ackv[d] = 0 /\ (loc[d] = "closed" \/ down)
+     \/ /\ ackv[d] = -1 /\ (loc[d] = "closed" \/ down)
         /\ dres' = [dres EXCEPT ![d] = "eof"]
   /\ dpc' = [dpc EXCEPT ![d] = "ret"]
   /\ UNCHANGED <<dt, strv, runv, brkv, twv, accv, panicked, nid>>
